@@ -19,11 +19,11 @@ import (
 //	R-CACHE-3  publishers store under the key the readers use, and that key cannot change
 
 func init() {
-	Register(&Rule{ID: "R-CACHE-2", Props: []string{"C20", "C08", "C09"}, Floor: 4,
+	Register(&Rule{ID: "R-CACHE-2", Props: []string{"C20", "C08", "C09"}, Floor: 3,
 		Doc:      "entries of Transaction.CachedViews are removed (sync.Map Delete/LoadAndDelete/CompareAndDelete/Clear reached through a map value derived from that field, directly or via callees that delete from their map parameter) only by Transaction.ReleaseResources / ReleaseResourcesWithErrors and by the lock-upgrade arm of cacheViewFromFile, where every path from the eviction to a return either stores the reloaded view back (CachedViews.Set) or has branched on a non-nil error; the field itself is assigned only in the constructor",
 		Controls: []string{"CtlEvictCached", "CtlEvictCachedViaHelper"},
 		Run:      ruleCache2})
-	Register(&Rule{ID: "R-CACHE-3", Props: []string{"C20", "C01"}, Floor: 8,
+	Register(&Rule{ID: "R-CACHE-3", Props: []string{"C20", "C01"}, Floor: 7,
 		Doc:      "every (ViewMap).Store call files the view under FileInfo.IdentifiedPath() of that same view (or re-files a Range entry under its own key), IdentifiedPath depends only on FileInfo.Path/ArchivePath, and none of the sanctioned writers of a shared FileInfo (R-ISO-1 b) nor any FileInfo method stores to the identity fields Path, ArchivePath or ViewType — so a statement's publication replaces exactly the entry its readers look up",
 		Controls: []string{"CtlStoreUnderOtherKey"},
 		Run:      ruleCache3})
